@@ -25,6 +25,9 @@ CHECKS = {
  "C19": dict(cat="model_checking", ref="7 C19", tech="timed TLA+ model (Tick action) || monitor with interval logic (TLC); timed replay with real sleeps; TLC trace validation",
              text="The model has a clock; TLC checks that nothing stale survives a call, nothing is flushed early, Close flushes all and later Maintain/Close fail. Every behaviour containing a tick is replayed with real sleeps (tick = 10 ms, timeout = (T+1/2) ticks) and judged on the real [t0,t1] intervals: an event that must be expired may not remain the head after a call, and one that cannot be expired may not be evicted for time. Random histories use negative, zero and millisecond timeouts with real sleeps.",
              note=RS_NOTE + " Timing is judged with microsecond intervals around each call; cases a stall makes undecidable are not judged."),
+ "C11": dict(cat="model_checking", ref="7 C11", tech="TLA+ model of the Reassembler's atomic steps, all interleavings by TLC; every schedule replayed on the real code under a controlled scheduler with -race; free-running -race stress judged by the same TLA+ monitor",
+             text="TLC enumerates every interleaving (at the grain of Put / CleanUp / closed-flag load / CAS / Clear, with optional re-entrant callbacks and callback-level scheduling points) of all programs of 1-2 operations for 2 goroutines and 1 operation for 3, and checks the C11 monitor; each schedule is then forced on the real Reassembler through the verif yield points under the race detector and its observation must equal the model's or is judged by the monitor; free-running rounds with concurrent closers, maintainers and re-entrant callbacks are judged on order-insensitive clauses with happens-before stamps.",
+             note="Trusted: TLC, the controlled scheduler (gates at the three verifYield points and in the harness's own Stream), Go's race detector. The model assumes the mutex-protected sections are atomic; schedules inside those sections are not enumerated. Programs are short (<=2 operations per goroutine)."),
 }
 
 NOT_YET = {
